@@ -1188,3 +1188,52 @@ mut('C20', 'delete-nonexistent-continues', DELETE,
 mut('C20', 'push-before-checks', CREATE,
     "    cascade = BranchCascade()\n    cascade.build(job.git.repo)\n    dev_branches = cascade.get_development_branches()\n",
     "    cascade = BranchCascade()\n    cascade.build(job.git.repo)\n    dev_branches = cascade.get_development_branches()\n    push(repo, prune=False)\n")
+
+# ------------------------------------------------------------- C09 (partial)
+mut('C09', 'major-only-sorts-first', BRANCHES,
+    "        if minor1 is None:\n            return 1\n        if minor2 is None:\n            return -1",
+    "        if minor1 is None:\n            return -1\n        if minor2 is None:\n            return 1")
+mut('C09', 'major-compared-last', BRANCHES,
+    "        return minor1 - minor2\n    return major1 - major2",
+    "        return minor1 - minor2\n    return major2 - major1")
+mut('C09', 'dev-lt-major-only', BRANCHES,
+    "        if self.minor is None:\n            # development/<major> is greater than development/<major>.<minor>\n            return False",
+    "        if self.minor is None:\n            # development/<major> is greater than development/<major>.<minor>\n            return True")
+mut('C09', 'stab-queue-after-dev', BRANCHES,
+    "        if len(v1) == 3 and len(v2) == 2:\n            return -1\n        elif len(v2) == 3 and len(v1) == 2:\n            return 1",
+    "        if len(v1) == 3 and len(v2) == 2:\n            return 1\n        elif len(v2) == 3 and len(v1) == 2:\n            return -1")
+mut('C09', 'duplicate-stab-accepted', BRANCHES,
+    "        if cur_branch:\n            raise errors.UnsupportedMultipleStabBranches(cur_branch, branch)\n\n",
+    "")
+mut('C09', 'duplicate-only-for-stab', BRANCHES,
+    "        if cur_branch:\n            raise errors.UnsupportedMultipleStabBranches(cur_branch, branch)",
+    "        if cur_branch and branch.__class__ is DevelopmentBranch:\n            raise errors.UnsupportedMultipleStabBranches(cur_branch, branch)")
+mut('C09', 'any-hotfix-admitted', BRANCHES,
+    "                if branch.major != dst_branch.major or \\\n                   branch.minor != dst_branch.minor or \\\n                   branch.micro != dst_branch.micro:",
+    "                if branch.major != dst_branch.major or \\\n                   branch.minor != dst_branch.minor:")
+mut('C09', 'hotfix-admitted-for-dev-dst', BRANCHES,
+    "                    # this is not the hotfix branch we want to add\n                    return\n            else:\n                return\n",
+    "                    # this is not the hotfix branch we want to add\n                    return\n")
+mut('C09', 'released-stab-lt', BRANCHES,
+    "        if stb_branch is not None and stb_branch.micro <= micro:",
+    "        if stb_branch is not None and stb_branch.micro < micro:")
+mut('C09', 'stab-without-dev-accepted', BRANCHES,
+    "            if dev_branch is None:\n                raise errors.DevBranchDoesNotExist(\n                    'development/%d.%d' % (major, minor))\n\n            if stb_branch:\n                if dev_branch.micro + 1",
+    "            if dev_branch is None:\n                continue\n\n            if stb_branch:\n                if dev_branch.micro + 1")
+mut('C09', 'version-mismatch-dropped', BRANCHES,
+    "                if dev_branch.micro + 1 != stb_branch.micro:\n                    raise errors.VersionMismatch(dev_branch, stb_branch)\n\n",
+    "")
+mut('C09', 'stab-and-dev-both-contribute', BRANCHES,
+    "            if stb_branch:\n                self.target_versions.append('%d.%d.%d' % (\n                    major, minor, stb_branch.micro))\n            elif dev_branch and dev_branch.has_minor is True:",
+    "            if stb_branch:\n                self.target_versions.append('%d.%d.%d' % (\n                    major, minor, stb_branch.micro))\n            if dev_branch and dev_branch.has_minor is True:")
+mut('C09', 'hotfix-version-for-any-dst', BRANCHES,
+    "            if hf_branch and dst_branch.name.startswith('hotfix/'):\n                self.target_versions.append",
+    "            if hf_branch:\n                self.target_versions.append")
+mut('C09', 'stab-offset-ignored', BRANCHES,
+    "                offset = 2 if dev_branch.has_stabilization else 1",
+    "                offset = 1")
+mut('C09', 'suffixed-tags-counted', BRANCHES,
+    "                  r\"(\\.(?P<hfrev>\\d+)|)$\"", "                  r\"(\\.(?P<hfrev>\\d+)|)\"")
+mut('C09', 'cascade-not-resorted', BRANCHES,
+    "            self._cascade = OrderedDict(\n                sorted(self._cascade.items(), key=cmp_to_key(compare_branches))\n            )",
+    "            self._cascade = OrderedDict(sorted(self._cascade.items(), key=lambda kv: (kv[0][0], kv[0][1] or 0)))")
